@@ -479,6 +479,7 @@ var pinnedProbes = []pinned{
 	{"x = {get a(){}, get a(){}}", 13, false, true},
 	{"x = {0x: 1}", 16, false, true},
 	{"x = {1e+: 1}", 16, false, true},
+	{"x = {q\\u12: 1};", 16, false, true},
 	// fixed finding C04-noin-relational-operand (24f7b9d): regression cases, ES5 verdict expected
 	{"for (x = a < b in c;;);", 18, false, false},
 	{"for (var i = 0, j = a instanceof b in c;;);", 18, false, false},
@@ -538,6 +539,7 @@ func main() {
 	h.parseFunctionStream()
 	h.staticMatrix()
 	h.escapeStream()
+	h.escapeCharStream()
 	h.noInStream()
 	h.lineTerminatorStream()
 	h.literalPositionStream()
